@@ -151,7 +151,25 @@ class _GuardFirst(ast.NodeTransformer):
         return node
 
 
+class _NotSpelling(ast.NodeTransformer):
+    """negations that have a positive spelling of their own are written that way before polarity is decided: `not a is b` -> `a is not b`,
+    `not a in b` -> `a not in b`, `not len(x)` -> `len(x) == 0` (the tree itself spells emptiness `len(x) == 0` throughout)"""
+
+    def visit_UnaryOp(self, node):
+        self.generic_visit(node)
+        if isinstance(node.op, ast.Not):
+            o = node.operand
+            if isinstance(o, ast.Compare) and len(o.ops) == 1 and isinstance(o.ops[0], (ast.Is, ast.IsNot, ast.In, ast.NotIn)):
+                flip = {ast.Is: ast.IsNot, ast.IsNot: ast.Is, ast.In: ast.NotIn, ast.NotIn: ast.In}[type(o.ops[0])]
+                return ast.copy_location(ast.Compare(left=o.left, ops=[flip()], comparators=o.comparators), node)
+            if isinstance(o, ast.Call) and isinstance(o.func, ast.Name) and o.func.id == "len" and len(o.args) == 1 and not o.keywords:
+                return ast.copy_location(ast.Compare(left=o, ops=[ast.Eq()], comparators=[ast.Constant(value=0)]), node)
+        return node
+
+
 def flip_ifs(tree: ast.AST) -> None:
+    _NotSpelling().visit(tree)
+    ast.fix_missing_locations(tree)
     _Elseify().visit(tree)
     _FlipIfs().visit(tree)
 
@@ -983,6 +1001,12 @@ def normalize_module(tree: ast.Module, modname: str, table: Optional[dict] = Non
         back = reintroduce_temps(fn, ref)
         if back:
             stats.setdefault("reintroduced", {})[qn] = back
+        if ref.get("src") and ref.get("digest") != digest(fn):
+            from .spelling import spell_align
+            k = spell_align(fn, ref["src"])
+            if k:
+                ast.fix_missing_locations(fn)
+                stats.setdefault("respelled", {})[qn] = k
     return stats
 
 
